@@ -372,7 +372,7 @@ fn main() {
         println!("events carry real signatures: re-running the generator (the witness is its first world); recorded request: {}", &r[..r.len().min(300)]);
     }
     let (stores, rounds) = match args.tier {
-        Tier::Quick => (6usize, 2usize),
+        Tier::Quick => (12usize, 2usize),
         Tier::Thorough => (120, 3),
         Tier::Search => (30, 3),
     };
